@@ -876,7 +876,14 @@ impl<'a> GeneratorState<'a> {
                                 self.asm_save_y(dummy_pos);
                                 self.asm(LDY, &sub_output, pos, false)?;
                                 self.saved_y = true;
-                                Ok(ExprType::AbsoluteY(variable.into()))
+                                if high_byte && v.var_type == VariableType::CharPtr && v.signed {
+                                    self.generate_sign_extend(
+                                        ExprType::AbsoluteY(variable.into()),
+                                        pos,
+                                    )
+                                } else {
+                                    Ok(ExprType::AbsoluteY(variable.into()))
+                                }
                             } else {
                                 Err(self
                                     .compiler_state
@@ -897,7 +904,14 @@ impl<'a> GeneratorState<'a> {
                                 self.asm_save_y(dummy_pos);
                                 self.asm(LDY, &sub_output, pos, false)?;
                                 self.saved_y = true;
-                                Ok(ExprType::AbsoluteY(variable.into()))
+                                if high_byte && v.var_type == VariableType::CharPtr && v.signed {
+                                    self.generate_sign_extend(
+                                        ExprType::AbsoluteY(variable.into()),
+                                        pos,
+                                    )
+                                } else {
+                                    Ok(ExprType::AbsoluteY(variable.into()))
+                                }
                             } else {
                                 Err(self
                                     .compiler_state
